@@ -85,33 +85,33 @@ func buildConfig(c encCfg) zapcore.EncoderConfig {
 	return cfg
 }
 
-// recEnc records what a sub-encoder function appended.
-type recEnc struct {
+// subRec records what a sub-encoder function appended.
+type subRec struct {
 	prims []*encPrim
 	raw   []any
 }
 
-func (r *recEnc) add(p *encPrim, raw any)        { r.prims = append(r.prims, p); r.raw = append(r.raw, raw) }
-func (r *recEnc) AppendBool(v bool)              { r.add(&encPrim{B: &v}, v) }
-func (r *recEnc) AppendByteString(v []byte)      { s := hx(v); r.add(&encPrim{BS: &s}, v) }
-func (r *recEnc) AppendComplex128(v complex128)  { r.add(mkComplex(v, 128), v) }
-func (r *recEnc) AppendComplex64(v complex64)    { r.add(mkComplex(complex128(v), 64), v) }
-func (r *recEnc) AppendFloat64(v float64)        { r.add(mkFloat64(v), v) }
-func (r *recEnc) AppendFloat32(v float32)        { r.add(mkFloat32(v), v) }
-func (r *recEnc) AppendInt(v int)                { r.add(mkInt(int64(v)), v) }
-func (r *recEnc) AppendInt64(v int64)            { r.add(mkInt(v), v) }
-func (r *recEnc) AppendInt32(v int32)            { r.add(mkInt(int64(v)), v) }
-func (r *recEnc) AppendInt16(v int16)            { r.add(mkInt(int64(v)), v) }
-func (r *recEnc) AppendInt8(v int8)              { r.add(mkInt(int64(v)), v) }
-func (r *recEnc) AppendString(v string)          { s := hx([]byte(v)); r.add(&encPrim{S: &s}, v) }
-func (r *recEnc) AppendUint(v uint)              { r.add(mkUint(uint64(v)), v) }
-func (r *recEnc) AppendUint64(v uint64)          { r.add(mkUint(v), v) }
-func (r *recEnc) AppendUint32(v uint32)          { r.add(mkUint(uint64(v)), v) }
-func (r *recEnc) AppendUint16(v uint16)          { r.add(mkUint(uint64(v)), v) }
-func (r *recEnc) AppendUint8(v uint8)            { r.add(mkUint(uint64(v)), v) }
-func (r *recEnc) AppendUintptr(v uintptr)        { r.add(mkUint(uint64(v)), v) }
+func (r *subRec) add(p *encPrim, raw any)        { r.prims = append(r.prims, p); r.raw = append(r.raw, raw) }
+func (r *subRec) AppendBool(v bool)              { r.add(&encPrim{B: &v}, v) }
+func (r *subRec) AppendByteString(v []byte)      { s := hx(v); r.add(&encPrim{BS: &s}, v) }
+func (r *subRec) AppendComplex128(v complex128)  { r.add(mkComplex(v, 128), v) }
+func (r *subRec) AppendComplex64(v complex64)    { r.add(mkComplex(complex128(v), 64), v) }
+func (r *subRec) AppendFloat64(v float64)        { r.add(mkFloat64(v), v) }
+func (r *subRec) AppendFloat32(v float32)        { r.add(mkFloat32(v), v) }
+func (r *subRec) AppendInt(v int)                { r.add(mkInt(int64(v)), v) }
+func (r *subRec) AppendInt64(v int64)            { r.add(mkInt(v), v) }
+func (r *subRec) AppendInt32(v int32)            { r.add(mkInt(int64(v)), v) }
+func (r *subRec) AppendInt16(v int16)            { r.add(mkInt(int64(v)), v) }
+func (r *subRec) AppendInt8(v int8)              { r.add(mkInt(int64(v)), v) }
+func (r *subRec) AppendString(v string)          { s := hx([]byte(v)); r.add(&encPrim{S: &s}, v) }
+func (r *subRec) AppendUint(v uint)              { r.add(mkUint(uint64(v)), v) }
+func (r *subRec) AppendUint64(v uint64)          { r.add(mkUint(v), v) }
+func (r *subRec) AppendUint32(v uint32)          { r.add(mkUint(uint64(v)), v) }
+func (r *subRec) AppendUint16(v uint16)          { r.add(mkUint(uint64(v)), v) }
+func (r *subRec) AppendUint8(v uint8)            { r.add(mkUint(uint64(v)), v) }
+func (r *subRec) AppendUintptr(v uintptr)        { r.add(mkUint(uint64(v)), v) }
 
-func (r *recEnc) one() (*encPrim, *string) {
+func (r *subRec) one() (*encPrim, *string) {
 	if len(r.prims) == 0 {
 		return nil, nil
 	}
@@ -251,7 +251,7 @@ func (g *encGen) timeVal() *encTime {
 	zoff := Pick(r, []int{0, 0, 0, 3600, -5 * 3600, 19800, 45 * 60, -12 * 3600})
 	et := &encTime{Nanos: strconv.FormatInt(t.UnixNano(), 10), Sec: strconv.FormatInt(t.Unix(), 10), Nsec: t.Nanosecond(), Zoff: zoff}
 	if g.rt.EncodeTime != nil {
-		rec := &recEnc{}
+		rec := &subRec{}
 		g.rt.EncodeTime(et.goTime(), rec)
 		et.V, _ = rec.one()
 	}
@@ -263,7 +263,7 @@ func (g *encGen) durVal() *encDur {
 	d := Pick(r, []int64{0, 1, -1, 1e9, 1500 * 1e6, math.MaxInt64, math.MinInt64, 999, -1e6, int64(r.U64() >> 8)})
 	ed := &encDur{Nanos: strconv.FormatInt(d, 10)}
 	if g.rt.EncodeDuration != nil {
-		rec := &recEnc{}
+		rec := &subRec{}
 		g.rt.EncodeDuration(time.Duration(d), rec)
 		ed.V, _ = rec.one()
 	}
@@ -612,12 +612,12 @@ func (g *encGen) entry() encEnt {
 	}
 	// what the configured sub-encoders append (observed by running the exported functions on a recorder)
 	if g.rt.EncodeLevel != nil {
-		rec := &recEnc{}
+		rec := &subRec{}
 		g.rt.EncodeLevel(zapcore.Level(e.Level), rec)
 		e.Lvl, e.LvlC = rec.one()
 	}
 	if !e.Time.Zero && g.rt.EncodeTime != nil {
-		rec := &recEnc{}
+		rec := &subRec{}
 		g.rt.EncodeTime(e.Time.goTime(), rec)
 		_, e.TimeC = rec.one()
 	}
@@ -626,12 +626,12 @@ func (g *encGen) entry() encEnt {
 		if ne == nil {
 			ne = zapcore.FullNameEncoder
 		}
-		rec := &recEnc{}
+		rec := &subRec{}
 		ne(string(unhx(e.Name)), rec)
 		e.NameV, e.NameC = rec.one()
 	}
 	if e.Caller.Defined && g.rt.EncodeCaller != nil {
-		rec := &recEnc{}
+		rec := &subRec{}
 		g.rt.EncodeCaller(e.Caller.goCaller(), rec)
 		e.Caller.V, e.CallerC = rec.one()
 	}
